@@ -7,6 +7,18 @@ C12 driver.
   obs  : `time=<str> tid=<nat> order=<keys in log_mdc::iter order> indep=ok line=<str>`
          (one blank-separated field; `time`, `tid`, `order` are environment facts the harness
           observed and hands back so that the model is fed the same)
+
+History cases (several encodes on ONE thread with ONE encoder):
+  case : `seq`  thread-name?  step|step|…
+         step = level;message;target;module_path?;file?;line?;mdc;writer;display
+         mdc  = `~` or `k:v,k:v…` (the MDC is cleared and refilled before the step)
+         writer  = `ok` | `a<k>` | `m<j>` | `d<j>` | `e<j>` (fail after k bytes: absolute, j bytes into
+                   the message text, j bytes into the MDC object, j bytes before the end of the line)
+         display = `-` | n (the message's `Display` writes n characters, then returns `fmt::Error`)
+  obs  : `seq:<tid>` then per step one blank-separated field
+         `time;k;order;kind;indep;iso;payload` — `k` the resolved byte limit (`-` if none), `kind`
+         ok|err|panic, `iso` whether the line equals (as JSON, time and thread_id dropped) what a fresh
+         thread and encoder produce for the same record, payload `t<chars>` (ok) or `b<hex bytes>`.
 -/
 namespace Driver.C12
 open Log4rs.Proto Log4rs.Json Driver
@@ -62,8 +74,181 @@ def tagsOf (thread : Option (List Char)) (r : Record) (mdc : List (List Char × 
   let trivial := special.isEmpty && mdc.isEmpty
   shape ++ special ++ where_ ++ (if trivial then ["trivial"] else [])
 
+/-! ### histories -/
+
+structure StepCase where
+  record : Record
+  ins : List (List Char × List Char)
+  writerTag : String
+  display : Option Nat
+
+def decPairColon (s : String) : Option (List Char × List Char) :=
+  match splitOnChar ':' s with
+  | [k, v] => match decStr k, decStr v with
+    | some k, some v => some (k, v)
+    | _, _ => none
+  | _ => none
+
+def writerTagOk (w : String) : Bool :=
+  w = "ok" || (match w.toList with
+    | c :: ds => (c = 'a' || c = 'm' || c = 'd' || c = 'e') && !ds.isEmpty && ds.all Char.isDigit
+    | [] => false)
+
+def decStep (s : String) : Option StepCase :=
+  match splitOnChar ';' s with
+  | [lv, msg, target, mp, file, line, mdc, w, disp] =>
+    match (decNat lv).bind Level.ofNat?, decStr msg, decStr target, decOpt decStr mp, decOpt decStr file,
+          decOpt decNat line, mapM? decPairColon (decList ',' mdc), decOpt decNat disp with
+    | some level, some message, some target, some modulePath, some file, some line, some ins, some display =>
+      if writerTagOk w then
+        some { record := { level, message, modulePath, file, line, target }, ins, writerTag := w, display }
+      else none
+    | _, _, _, _, _, _, _, _ => none
+  | _ => none
+
+structure StepObs where
+  timeS : String
+  time : List Char
+  k : Option Nat
+  orderS : String
+  order : List (List Char)
+  kind : String
+  iso : String
+  text : Option (List Char)
+  bytes : Option (List Nat)
+
+def decStepObs (s : String) : Option StepObs :=
+  match splitOnChar ';' s with
+  | [timeS, kS, orderS, kind, _indep, iso, payload] =>
+    match decStr timeS, decOpt decNat kS, mapM? decStr (decList ',' orderS) with
+    | some time, some k, some order =>
+      match payload.toList with
+      | 't' :: rest => (decStr (String.ofList rest)).map fun t =>
+          { timeS, time, k, orderS, order, kind, iso, text := some t, bytes := none }
+      | 'b' :: rest => (decBytes (String.ofList rest)).map fun b =>
+          { timeS, time, k, orderS, order, kind, iso, text := none, bytes := some b }
+      | _ => none
+    | _, _, _ => none
+  | _ => none
+
+structure StepAnswer where
+  model : String
+  okStep : Bool
+  /-- `none` = the step satisfies the specification -/
+  fail : Option (String × String)
+  tags : List String
+
+def seqStep (thread : Option (List Char)) (tid : Nat) (idx : Nat) (c : StepCase) (o : StepObs) : StepAnswer :=
+  let map := mdcMap c.ins
+  let isPerm := o.order.length = map.length && noDupKeys o.order && o.order.all (fun k => map.any (·.1 == k))
+  let mdcEnv := o.order.filterMap fun k => (map.lookup k).map (k, ·)
+  let env : Env := { time := o.time, thread, threadId := tid, mdc := mdcEnv }
+  let writer : WriterBehaviour := match o.k with | some k => .failAfter k | none => .acceptAll
+  let step : Step := { env, record := c.record, writer, displayFails := c.display }
+  let res := (encodeStep {} step).2
+  let kindS := match res.kind with
+    | .ok => "ok"
+    | .ioErr => "err"
+    | .displayFailed => if o.kind = "err" || o.kind = "panic" then o.kind else "err-or-panic"
+  let okStep := res.kind = .ok
+  let model := o.timeS ++ ";" ++ encOpt toString o.k ++ ";" ++ (if isPerm then o.orderS else "NOT-A-PERMUTATION")
+    ++ ";" ++ kindS ++ ";" ++ (if okStep then "ok" else "-") ++ ";" ++ (if okStep then "same" else "-") ++ ";"
+    ++ (if okStep then "t" ++ encStr (jsonLine env c.record) else "b" ++ encBytes res.received)
+  let pre := "step" ++ toString idx ++ " "
+  let fail : Option (String × String) :=
+    if !isPerm then some (pre ++ "mdc keys iterated are not the keys inserted", "C12/mdc-keys")
+    else if okStep then
+      match o.text with
+      | none => some (pre ++ "the writer accepted everything but no complete UTF-8 line came out (" ++ o.kind ++ ")", "C12/no-line")
+      | some t =>
+        if o.kind ≠ "ok" then some (pre ++ "encode did not return Ok although the writer accepted everything", "C12/no-line")
+        else match specLine env c.record t with
+          | .fail clause =>
+            if o.iso = "diff" then
+              some (pre ++ clause ++ ": the line differs from what a fresh thread and encoder emit for the same record",
+                    "C12/state-leaks-between-records")
+            else some (pre ++ clause, "C12/" ++ clause)
+          | .ok =>
+            if o.iso = "diff" then
+              some (pre ++ "the line differs from what a fresh thread and encoder emit for the same record",
+                    "C12/state-leaks-between-records")
+            else none
+    else
+      let got : List Nat := match o.bytes, o.text with
+        | some b, _ => b
+        | none, some t => Log4rs.utf8 t
+        | none, none => []
+      if specCutStep step got then none
+      else some (pre ++ "the bytes of the unfinished encode are not a prefix of the record's line cut at the writer's limit",
+                 "C12/cut-step-not-a-prefix")
+  let posTag : List String :=
+    if c.writerTag = "ok" then [] else
+    match c.writerTag.toList with
+    | 'a' :: ds => if ds = ['0'] then ["fail-at-0"] else ["fail-abs"]
+    | 'm' :: _ => ["fail-in-message"]
+    | 'd' :: _ => ["fail-in-mdc"]
+    | 'e' :: ds => if ds = ['1'] then ["fail-at-newline"] else ["fail-near-end"]
+    | _ => []
+  let tags := posTag
+    ++ (if c.display.isSome then ["display-fails"] else [])
+    ++ (if !okStep && res.kind = .ioErr then ["step-io-err"] else [])
+    ++ (if c.writerTag ≠ "ok" && okStep then ["limit-not-reached"] else [])
+    ++ (if c.record.message.length ≥ 256 then ["long-message"] else if c.record.message.length ≤ 2 then ["short-message"] else [])
+    ++ (if c.record.message.length > 8192 then ["message-over-8k"] else [])
+    ++ (if c.record.target.length ≥ 64 then ["long-target"] else [])
+    ++ (if c.record.message.any needsEscape then ["escapes-in-message"] else [])
+    ++ (if map.isEmpty then [] else ["mdc-nonempty"])
+  { model, okStep, fail, tags }
+
+def adjacent : List α → List (α × α)
+  | a :: b :: r => (a, b) :: adjacent (b :: r)
+  | _ => []
+
+def zip3 : List α → List β → List γ → List (α × β × γ)
+  | a :: as, b :: bs, c :: cs => (a, b, c) :: zip3 as bs cs
+  | _, _, _ => []
+
+def handleSeq (threadS stepsS : String) (obs : List String) : Answer :=
+  match decOpt decStr threadS, mapM? decStep (splitOnChar '|' stepsS) with
+  | some thread, some steps =>
+    let obsFields := (splitOnChar ' ' (" ".intercalate obs)).filter (· ≠ "")
+    match obsFields with
+    | head :: rest =>
+      match splitOnChar ':' head with
+      | ["seq", tidS] =>
+        match decNat tidS, mapM? decStepObs rest with
+        | some tid, some stepObs =>
+          if stepObs.length ≠ steps.length then badCase "step count"
+          else
+            let answers := (zip3 (List.range steps.length) steps stepObs).map fun (i, c, o) => seqStep thread tid i c o
+            let model := " ".intercalate (("seq:" ++ toString tid) :: answers.map (·.model))
+            let fails := answers.filterMap (·.fail)
+            let spec := match fails.find? (·.2 = "C12/state-leaks-between-records"), fails.head? with
+              | some (msg, sig), _ => "FAIL:" ++ msg ++ ";sig=" ++ sig
+              | none, some (msg, sig) => "FAIL:" ++ msg ++ ";sig=" ++ sig
+              | none, none => "ok"
+            let okFlags : List Bool := answers.map (·.okStep)
+            let ps := adjacent okFlags
+            let mdcChanged := (adjacent (steps.map (·.ins))).any fun p => p.1 != p.2
+            let shape :=
+              ["seq", "seq-len-" ++ toString steps.length]
+              ++ (if okFlags.head? = some false then ["failure-first"] else [])
+              ++ (if ps.any (fun p => !p.1 && p.2) then ["failure-then-success"] else [])
+              ++ (if ps.any (fun p => !p.1 && !p.2) then ["two-failures-in-a-row"] else [])
+              ++ (if okFlags.all (· = true) then ["no-failure"] else [])
+              ++ (if mdcChanged then ["mdc-changed-between-steps"] else [])
+              ++ (if thread.isSome then ["thread-named"] else ["thread-null"])
+            { model, spec, tags := dedup (shape ++ answers.flatMap (·.tags)) }
+        | _, _ => badCase "observation"
+      | _ =>
+        -- the harness could not run the history at all
+        { model := "seq:0", spec := "FAIL:no history observed (" ++ head.take 40 ++ ");sig=C12/no-line", tags := ["seq"] }
+    | [] => badCase "observation"
+  | _, _ => badCase "fields"
+
 def handle : Handler := fun cas obs =>
   match cas with
+  | ["seq", threadS, stepsS] => handleSeq threadS stepsS obs
   | [lv, msg, target, mp, file, line, thread, mdc] =>
     match (decNat lv).bind Level.ofNat?, decStr msg, decStr target, decOpt decStr mp, decOpt decStr file,
           decOpt decNat line, decOpt decStr thread, mapM? decPair (decList ',' mdc) with
